@@ -3,7 +3,7 @@ from textwrap import indent
 
 from pydbml.classes import Table
 from pydbml.renderer.dbml.default.renderer import DefaultDBMLRenderer
-from pydbml.renderer.dbml.default.utils import comment_to_dbml, quote_string
+from pydbml.renderer.dbml.default.utils import comment_to_dbml, name_to_dbml, quote_string
 
 
 def get_full_name_for_dbml(model) -> str:
@@ -45,7 +45,7 @@ def render_table(model: Table) -> str:
 
     if model.properties:
         if model.database and model.database.allow_properties:
-            properties_str = '\n' + '\n'.join(f'{key}: {quote_string(value)}' for key, value in model.properties.items()) + '\n'
+            properties_str = '\n' + '\n'.join(f'{name_to_dbml(key)}: {quote_string(value)}' for key, value in model.properties.items()) + '\n'
             properties_str = indent(properties_str, '    ')
             result += properties_str
 
